@@ -262,7 +262,13 @@ func (l *lexer) acceptWS() {
 		l.backup()
 
 		if strings.HasPrefix(l.input[l.pos:], str_comment_start) {
+			// the end of the comment comes after its start: "/*/" does not close itself
+			l.pos += len(str_comment_start)
 			for {
+				if strings.HasPrefix(l.input[l.pos:], str_comment_end) {
+					l.pos += len(str_comment_end)
+					break
+				}
 				var r = l.next()
 				if strings.HasPrefix(l.input[l.pos:], str_comment_end) {
 					l.pos += len(str_comment_end)
